@@ -1,0 +1,26 @@
+//go:build verif
+
+package commonspace
+
+import (
+	"context"
+
+	"github.com/anyproto/any-sync/commonspace/spacestorage"
+	"github.com/anyproto/any-sync/net/peer"
+)
+
+// Verification seams (build tag `verif` only, add-only): run the three code paths through which a
+// space payload reaches the storage provider (local create, push via SpaceDescription, pull from a
+// peer) on a spaceService that has nothing but its storage provider.
+
+func VerifCreateSpaceStorage(ctx context.Context, sp spacestorage.SpaceStorageProvider, payload spacestorage.SpaceStorageCreatePayload) (spacestorage.SpaceStorage, error) {
+	return (&spaceService{storageProvider: sp}).createSpaceStorage(ctx, payload)
+}
+
+func VerifAddSpaceStorage(ctx context.Context, sp spacestorage.SpaceStorageProvider, d SpaceDescription) (spacestorage.SpaceStorage, error) {
+	return (&spaceService{storageProvider: sp}).addSpaceStorage(ctx, d)
+}
+
+func VerifSpacePullWithPeer(ctx context.Context, sp spacestorage.SpaceStorageProvider, p peer.Peer, id string) (spacestorage.SpaceStorage, error) {
+	return (&spaceService{storageProvider: sp}).spacePullWithPeer(ctx, p, id, Deps{})
+}
